@@ -66,6 +66,8 @@ def registry(tf, tfl):
       "KroneckerFactoredLattice": (L.KroneckerFactoredLattice, dict(lattice_sizes=2), "layer", (None, 2)),
       "CDF": (L.CDF, dict(num_keypoints=3), "layer", (None, 2)),
       "RTL": (L.RTL, dict(num_lattices=2, lattice_rank=2), "layer_rtl", None),
+      "RTLKfl": (L.RTL, dict(num_lattices=2, lattice_rank=2, parameterization="kronecker_factored",
+                              kernel_initializer="kfl_random_monotonic_initializer"), "layer_rtl", None),
       "LatticeConstraints": (lattice_layer.LatticeConstraints, dict(lattice_sizes=[2, 3]), "fn", (6, 1)),
       "LinearConstraints": (linear_layer.LinearConstraints, dict(monotonicities=[1, 1, 0]), "fn", (3, 1)),
       "PWLCalibrationConstraints": (pwl_calibration_layer.PWLCalibrationConstraints, dict(), "fn", (3, 1)),
@@ -242,9 +244,10 @@ def _shape_of(tf, cls, kw):
 
 def _probe(tf, cls, kw, rng):
   u = kw.get("units", 1)
-  if cls == "RTL":
-    return {"increasing": tf.constant((rng.integers(0, 33, size=(4, 2)) / 32.0).astype(np.float32)),
-            "unconstrained": tf.constant((rng.integers(0, 33, size=(4, 2)) / 32.0).astype(np.float32))}
+  if cls in ("RTL", "RTLKfl"):
+    # rows inside and outside the lattice range (clipping is part of the function)
+    return {"increasing": tf.constant((rng.integers(-48, 113, size=(6, 2)) / 32.0).astype(np.float32)),
+            "unconstrained": tf.constant((rng.integers(-48, 113, size=(6, 2)) / 32.0).astype(np.float32))}
   if cls == "CategoricalCalibration":
     return tf.constant(rng.integers(0, 3, size=(4, u)).astype(np.int32))
   if cls in ("PWLCalibration", "PWLCalibrationImpute"):
@@ -254,8 +257,8 @@ def _probe(tf, cls, kw, rng):
   if cls == "CDF":
     return tf.constant((rng.integers(0, 33, size=(4, 2)) / 32.0).astype(np.float32))
   n = {"Lattice": 2, "Linear": 3, "KroneckerFactoredLattice": 2}[cls]
-  shape = (4, n) if u == 1 else (4, u, n)
-  return tf.constant((rng.integers(0, 33, size=shape) / 32.0).astype(np.float32))
+  shape = (6, n) if u == 1 else (6, u, n)
+  return tf.constant((rng.integers(-32, 97, size=shape) / 32.0).astype(np.float32))       # inside and outside [0, 1]
 
 
 def run(ctx):
